@@ -237,6 +237,12 @@ def directed():
             if c["vk"] in ("scalar", "flat", "colvec", "collist", "ragged", "flatlist"):
                 yield dict(c, dtype="float64", hostile=True)
                 yield dict(c, dtype="float32", hostile=True, recv=c02.RECVS[1 + (k + 1) % 4])
+    # more than 100000 selected rows, with gaps and empty rows among them (any chunked index construction must agree with the plain one)
+    hl = [(i * 7) % 3 for i in range(130001)]
+    yield mk_case(hl, slice(None, None, 2), None, False, "scalar")
+    yield mk_case(hl, slice(3, None, 1), slice(None, None, -1), True, "colvec")
+    yield mk_case(hl, np.array([i % 5 != 2 for i in range(130001)]), None, False, "scalar")
+    yield mk_case(hl, np.arange(1, 130001, 1)[::-1].copy(), None, False, "ragged")
 
 
 def _directed():
